@@ -549,4 +549,105 @@ theorem field_roundtrip (p : Property) (h : WFField p = true) : roundtrip p = .o
             normFieldSchema, hr, hic]
 
 
+/-! ## the normal form means the same -/
+
+def Schema.isEnum : Schema → Bool
+  | .enum _ _ _ => true
+  | _ => false
+
+theorem intOk_norm (r : IntRules) (v : Int) : intOk (normIntRules r) v = intOk r v := by
+  obtain ⟨mn, mx, emn, emx⟩ := r
+  cases mn <;> cases mx <;> (rcases emn with _ | _ | _) <;> (rcases emx with _ | _ | _) <;>
+    simp [intOk, normIntRules, normExcl, optAll]
+
+theorem j5Item_norm (M : Matcher) (hM : ∀ x, M.run id62Pattern x = id62Shape x) (s : Schema)
+    (hne : s.isEnum = false) (x : Scalar) : j5Item M (normSchema s) x = j5Item M s x := by
+  cases s with
+  | enum d r lr => simp [Schema.isEnum] at hne
+  | integer fmt rules lr =>
+    cases x <;> cases rules <;> simp [normSchema, j5Item, optAll, intOk_norm, Schema.isMessage]
+  | bool rules lr =>
+    cases x <;> simp [normSchema, j5Item, optAll, Schema.isMessage]
+    cases rules with
+    | none => rfl
+    | some r => obtain ⟨c⟩ := r; cases c <;> simp [optAll]
+  | bytes rules =>
+    cases x <;> cases rules <;> simp [normSchema, j5Item, optAll, Schema.isMessage]
+  | key format entity lr =>
+    cases x <;> simp [normSchema, j5Item, Schema.isMessage]
+    cases format with
+    | none => cases lr <;> simp [normKeyFormat]
+    | some f =>
+      cases f with
+      | custom p =>
+        by_cases hp : p = id62Pattern
+        · subst hp; simp [normKeyFormat, hM]
+        · simp [normKeyFormat, hp]
+      | informal => cases lr <;> simp [normKeyFormat]
+      | uuid => simp [normKeyFormat]
+      | id62 => simp [normKeyFormat]
+  | string f r lr => cases x <;> simp [normSchema, j5Item, Schema.isMessage]
+  | float b lr => cases x <;> simp [normSchema, j5Item, Schema.isMessage]
+  | object r f h => cases x <;> simp [normSchema, j5Item, Schema.isMessage]
+  | oneof r h lr => cases x <;> simp [normSchema, j5Item, Schema.isMessage]
+  | timestamp h lr => cases x <;> simp [normSchema, j5Item, Schema.isMessage]
+  | date r lr => cases x <;> simp [normSchema, j5Item, Schema.isMessage]
+  | decimal r lr => cases x <;> simp [normSchema, j5Item, Schema.isMessage]
+  | any o t lr => cases x <;> simp [normSchema, j5Item, Schema.isMessage]
+
+theorem isMessage_norm (s : Schema) : (normSchema s).isMessage = s.isMessage := by
+  cases s <;> rfl
+
+theorem primaryKey_norm (p : Property) : (normField p).primaryKey = p.primaryKey := by
+  obtain ⟨name, num, req, opt, desc, schema⟩ := p
+  cases schema with
+  | single s =>
+    cases s <;> try rfl
+    rename_i f e lr
+    cases e with
+    | none => rfl
+    | some e => obtain ⟨t, tk⟩ := e; cases t <;> try rfl
+                rename_i b; cases b <;> rfl
+  | array s r sf =>
+    cases s <;> try rfl
+    rename_i f e lr
+    cases e with
+    | none => rfl
+    | some e => obtain ⟨t, tk⟩ := e; cases t <;> try rfl
+                rename_i b; cases b <;> rfl
+
+theorem j5Accepts_norm (M : Matcher) (hM : ∀ x, M.run id62Pattern x = id62Shape x) (p : Property)
+    (hne : p.schema.item.isEnum = false) (v : FieldVal) :
+    j5Accepts M (normField p) v = j5Accepts M p v := by
+  have hpk := primaryKey_norm p
+  obtain ⟨name, num, req, opt, desc, schema⟩ := p
+  have hreq : (normField ⟨name, num, req, opt, desc, schema⟩).effRequired =
+      (Property.effRequired ⟨name, num, req, opt, desc, schema⟩) := by
+    simp only [Property.effRequired, hpk]
+    simp [normField, Property.effRequired]
+  cases schema with
+  | single s =>
+    simp only [FieldSchema.item] at hne
+    cases v with
+    | absent => simp only [j5Accepts, normField, normFieldSchema] at hreq ⊢; simp [hreq]
+    | single x =>
+      have hi := j5Item_norm M hM s hne x
+      simp only [j5Accepts, normField, normFieldSchema, Property.hasPresence, isMessage_norm] at hreq ⊢
+      simp [hreq, hi]
+    | list xs => rfl
+  | array s rules sf =>
+    simp only [FieldSchema.item] at hne
+    cases v with
+    | absent => rfl
+    | single x => rfl
+    | list xs =>
+      have hi : xs.all (j5Item M (normSchema s)) = xs.all (j5Item M s) := by
+        congr 1; funext x; exact j5Item_norm M hM s hne x
+      simp only [j5Accepts, normField, normFieldSchema] at hreq ⊢
+      rw [hreq, hi]
+      cases rules with
+      | some r => rfl
+      | none => cases hasItemConstraint s <;> simp [optAll]
+
+
 end J5V.Rules
